@@ -141,7 +141,12 @@ func (s *Server) manifestGet(repoStr, arg string) http.HandlerFunc {
 				i := types.Index{}
 				rdr, err := repo.BlobGet(desc.Digest)
 				if err != nil {
-					w.WriteHeader(http.StatusInternalServerError)
+					if errors.Is(err, types.ErrNotFound) || os.IsNotExist(err) {
+						w.WriteHeader(http.StatusNotFound)
+						_ = types.ErrRespJSON(w, types.ErrInfoManifestBlobUnknown("requested manifest was not found in blob store"))
+					} else {
+						w.WriteHeader(http.StatusInternalServerError)
+					}
 					return
 				}
 				defer rdr.Close()
